@@ -179,8 +179,9 @@ Peer(parentEnd, childEnd) == parentEnd.ino = childEnd.ino /\ parentEnd.acc + chi
 WiringOk(rt, held) ==
   \A i \in 0..2 :
     LET c == StreamCfg(i) IN
-    /\ i \in DOMAIN rt
-    /\ CASE c = "none"  -> i \in DOMAIN pre /\ rt[i].ino = pre[i].ino /\ rt[i].acc = pre[i].acc
+    /\ i \in DOMAIN rt \/ (c = "none" /\ i \notin DOMAIN pre)      \* (closed in the parent and not configured: see below)
+    /\ CASE c = "none"  -> \/ i \notin DOMAIN pre /\ i \notin DOMAIN rt
+                           \/ i \in DOMAIN pre /\ i \in DOMAIN rt /\ rt[i].ino = pre[i].ino /\ rt[i].acc = pre[i].acc
          [] c = "pipe"  -> res.ok => LET pf == res.pfd[i + 1] IN
                              pf \in DOMAIN held /\ Peer(held[pf], rt[i])
                              /\ (IF i = 0 THEN rt[i].acc = 0 ELSE rt[i].acc = 1)
@@ -218,6 +219,11 @@ Report(r, held) ==
   /\ sanity' = sanity \cup V(didExec => View(rt) = View(execd), "child_table_differs_from_fd_model")
   /\ viol' = viol
        \cup V(WiringOk(rt, Tab(held)), "C05_wiring")
+       \* a stream that was not configured and is closed in the parent is closed in the child (nothing of the launch's own
+       \* making may land on its number)
+       \cup V(\A i \in 0..2 : (StreamCfg(i) = "none" /\ i \notin DOMAIN pre
+                               /\ ~(StreamCfg(IF i = 2 THEN 1 ELSE 2) = "merge" /\ i # 0)) => i \notin DOMAIN rt,
+              "C05_closed_stream_stays_closed")
        \cup V(NoLeak(rt), "C08_no_pipe_end_leaks")
        \cup V(StdNotStray(rt), "C08_no_pipe_end_leaks")
        \cup V(r.mask_empty, "C18_signal_mask_empty")
